@@ -584,13 +584,17 @@ def check(run):
         for label, mk in [
             ("crash-new", lambda: m2),
             ("crash-resave", lambda: a),
+            # a curve of a measurement file the container does not hold yet
+            # (its raw file is embedded by this very save)
+            ("crash-new-file", lambda: m2),
         ]:
             idnt = mk()
             k = 0
             while True:
                 sc2 = Scenario(run, f"{label}-{k}", exprs, descr)
                 sc2.save(a, 5, "alice", "ok", label="base")
-                sc2.save(m0, 3, "alice", "", label="base2")
+                if label != "crash-new-file":
+                    sc2.save(m0, 3, "alice", "", label="base2")
                 exn, f, _, _ = sc2.save(idnt, 4, "dave", "retry me", fail=k,
                                         label=label)
                 if exn != "Boom":
@@ -607,8 +611,8 @@ def check(run):
                              theorem="C16_crash_safe")
                 shutil.rmtree(sc2.dir, ignore_errors=True)
                 k += 1
-                if run.tier == "quick" and label == "crash-new" and \
-                        8 < k < 26:
+                if run.tier == "quick" and label.startswith("crash-new") \
+                        and 8 < k < 26:
                     k = 26          # attribute writes are all alike
             run.extra[f"write_calls:{label}"] = nw
         # --- round trips
